@@ -59,6 +59,13 @@ type L2Obs struct {
 	Sigs        map[string][]SigNames `json:"sigs,omitempty"` // declared parameter / result names per interface
 	Writes      int    `json:"writes"`               // how often Mock called Write on the writer it was given
 	FailWrite   string `json:"fail_write,omitempty"` // C17: what Mock did with a writer that fails
+	SpecFiles   []SpecFile `json:"spec_files,omitempty"` // per source file, in load order: how many import specs it has
+}
+
+// SpecFile says how many import specs one file contributes to the flat list in the model input.
+type SpecFile struct {
+	Name  string `json:"name"`
+	Specs int    `json:"specs"`
 }
 
 // countingWriter records how it is used; with failAfter >= 0 it fails after that many bytes.
@@ -270,6 +277,7 @@ func runL2Case(c L2Case, dumpOnly bool) (o L2Obs) {
 	}
 	o.Input = in
 	o.Sigs = lastSigs
+	o.SpecFiles = lastSpecFiles
 	o.Config = fmt.Sprintf("(mkConfig %s %s %s %s)", coqStr(c.Pkg), coqBool(c.Stub), coqBool(c.Skip), coqBool(c.Resets))
 	o.Args = coqStrList(c.Args)
 	if dumpOnly {
@@ -357,6 +365,7 @@ func runL2Case(c L2Case, dumpOnly bool) (o L2Obs) {
 }
 
 var lastSigs map[string][]SigNames
+var lastSpecFiles []SpecFile
 
 func dumpInput(c L2Case) (string, error) {
 	src, err := loadSrc(".")
@@ -421,6 +430,12 @@ func dumpInput(c L2Case) (string, error) {
 		if err == nil && len(pkgs) == 1 && len(pkgs[0].Errors) == 0 {
 			oracle = "(Some " + coqStr(pkgs[0].Name) + ")"
 		}
+	}
+	lastSpecFiles = nil
+	for i, f := range src.Syntax {
+		_ = i
+		name := filepath.Base(src.Fset.Position(f.Package).Filename)
+		lastSpecFiles = append(lastSpecFiles, SpecFile{Name: name, Specs: len(f.Imports)})
 	}
 	return fmt.Sprintf("(mkInput %s %s %s %s)", coqPkg(src.Types), importSpecs(src.Syntax), oracle, coqList(lookups)), nil
 }
